@@ -34,11 +34,11 @@ Lemma len_items s : len (sl_items s) = len (sl_nodes s).
 Proof. unfold len, sl_items. rewrite map_length. reflexivity. Qed.
 
 (** ZRANGE: outside the recorded class the code's index translation is Redis' rule *)
-Theorem zrange_fwd_redis s start stop :
+Theorem zrange_fwd_redis_v1 s start stop :
   sl_length s = len (sl_nodes s) -> kf_zrange_fwd (sl_length s) start stop = false ->
-  zrange_of s start stop false = redis_slice (sl_items s) start stop.
+  zrange_of_v1 s start stop false = redis_slice (sl_items s) start stop.
 Proof.
-  intros E K. unfold zrange_of, redis_slice, redis_range, sl_len. rewrite len_items, <- E.
+  intros E K. unfold zrange_of_v1, redis_slice, redis_range, sl_len. rewrite len_items, <- E.
   set (ln := sl_length s) in *. unfold kf_zrange_fwd in K.
   assert (Hln : 0 <= ln) by (rewrite E; apply len_nonneg).
   destruct (Z.eqb_spec ln 0) as [Z0|NZ].
@@ -69,11 +69,11 @@ Proof.
 Qed.
 
 (** ZREVRANGE: outside the recorded classes it is Redis' rule on the reversed order *)
-Theorem zrange_rev_redis s start stop :
+Theorem zrange_rev_redis_v1 s start stop :
   sl_length s = len (sl_nodes s) -> kf_zrange_rev (sl_length s) start stop = false ->
-  zrange_of s start stop true = redis_slice (rev (sl_items s)) start stop.
+  zrange_of_v1 s start stop true = redis_slice (rev (sl_items s)) start stop.
 Proof.
-  intros E K. unfold zrange_of, redis_slice, redis_range, sl_len.
+  intros E K. unfold zrange_of_v1, redis_slice, redis_range, sl_len.
   assert (Lr : len (rev (sl_items s)) = sl_length s) by (unfold len; rewrite rev_length; fold (len (sl_items s)); rewrite len_items; auto).
   rewrite Lr.
   assert (Ll : length (sl_items s) = Z.to_nat (sl_length s)).
@@ -91,6 +91,65 @@ Proof.
     | |- rev (firstn ?n (skipn ?a _)) = firstn _ _ =>
         rewrite (rev_slice (sl_items s) a n) by lia; rewrite Ll; f_equal; try lia; f_equal; lia
     end.
+Qed.
+
+(** the repaired translation is Redis' rule for all start and stop *)
+Theorem zrange_fwd_redis_v2 s start stop :
+  sl_length s = len (sl_nodes s) ->
+  zrange_of_v2 s start stop false = redis_slice (sl_items s) start stop.
+Proof.
+  intros E. unfold zrange_of_v2, redis_slice, redis_range, sl_len. rewrite len_items, <- E.
+  set (ln := sl_length s) in *.
+  assert (Hln : 0 <= ln) by (rewrite E; apply len_nonneg).
+  destruct (Z.eqb_spec ln 0) as [Z0|NZ].
+  - assert (sl_items s = []) as ->.
+    { pose proof (len_items s) as L. rewrite <- E in L. rewrite Z0 in L. unfold len in L.
+      destruct (sl_items s); [reflexivity|cbn in L; lia]. }
+    brk; try reflexivity; exfalso; lia.
+  - brk; try reflexivity; try lia;
+    rewrite rbr_items by (try exact E; lia); fold ln; brk; try lia; try reflexivity;
+    f_equal; try lia; f_equal; lia.
+Qed.
+Theorem zrange_rev_redis_v2 s start stop :
+  sl_length s = len (sl_nodes s) ->
+  zrange_of_v2 s start stop true = redis_slice (rev (sl_items s)) start stop.
+Proof.
+  intros E. unfold zrange_of_v2, redis_slice, redis_range, sl_len.
+  assert (Lr : len (rev (sl_items s)) = sl_length s) by (unfold len; rewrite rev_length; fold (len (sl_items s)); rewrite len_items; auto).
+  rewrite Lr.
+  assert (Ll : length (sl_items s) = Z.to_nat (sl_length s)).
+  { rewrite E, <- len_items. unfold len. lia. }
+  set (ln := sl_length s) in *.
+  assert (Hln : 0 <= ln) by (rewrite E; apply len_nonneg).
+  destruct (Z.eqb_spec ln 0) as [Z0|NZ].
+  - assert (sl_items s = []) as ->.
+    { destruct (sl_items s); [reflexivity|cbn in Ll; lia]. }
+    cbn [rev]. brk; try reflexivity; exfalso; lia.
+  - brk; try reflexivity; try lia;
+    rewrite rbr_items by (try exact E; lia); fold ln; brk; try lia;
+    match goal with
+    | |- rev (firstn ?n _) = [] => replace n with O by lia; reflexivity
+    | |- rev (firstn ?n (skipn ?a _)) = firstn _ _ =>
+        rewrite (rev_slice (sl_items s) a n) by lia; rewrite Ll; f_equal; try lia; f_equal; lia
+    end.
+Qed.
+
+(** the translation in force: Redis' rule outside the recorded classes (no exception once repaired) *)
+Theorem zrange_fwd_redis s start stop :
+  sl_length s = len (sl_nodes s) -> (zrange_fixed = false -> kf_zrange_fwd (sl_length s) start stop = false) ->
+  zrange_of s start stop false = redis_slice (sl_items s) start stop.
+Proof.
+  intros E K. unfold zrange_of. destruct zrange_fixed.
+  - apply zrange_fwd_redis_v2, E.
+  - apply zrange_fwd_redis_v1; auto.
+Qed.
+Theorem zrange_rev_redis s start stop :
+  sl_length s = len (sl_nodes s) -> (zrange_fixed = false -> kf_zrange_rev (sl_length s) start stop = false) ->
+  zrange_of s start stop true = redis_slice (rev (sl_items s)) start stop.
+Proof.
+  intros E K. unfold zrange_of. destruct zrange_fixed.
+  - apply zrange_rev_redis_v2, E.
+  - apply zrange_rev_redis_v1; auto.
 Qed.
 
 (** ---- databases ---- *)
@@ -388,14 +447,14 @@ Lemma z2sl_items z : sl_items (z2sl z) = z.
 Proof. apply sl_of_items_items. Qed.
 
 Theorem eng_zrange_spec d key z start stop :
-  zget d key = Some z -> kf_zrange_fwd (len z) start stop = false ->
+  zget d key = Some z -> (zrange_fixed = false -> kf_zrange_fwd (len z) start stop = false) ->
   eng_zrange d key start stop false = Some (redis_slice z start stop).
 Proof.
   intros G K. unfold eng_zrange. rewrite (with_zset_zget d key [] _ z G) by reflexivity.
   f_equal. rewrite <- (z2sl_items z) at 2. apply zrange_fwd_redis; [apply z2sl_length|exact K].
 Qed.
 Theorem eng_zrevrange_spec d key z start stop :
-  zget d key = Some z -> kf_zrange_rev (len z) start stop = false ->
+  zget d key = Some z -> (zrange_fixed = false -> kf_zrange_rev (len z) start stop = false) ->
   eng_zrange d key start stop true = Some (redis_slice (rev z) start stop).
 Proof.
   intros G K. unfold eng_zrange. rewrite (with_zset_zget d key [] _ z G) by reflexivity.
@@ -416,7 +475,7 @@ Proof.
   - unfold eng_zrange. rewrite (with_zset_zget d key [] _ [] G) by reflexivity. reflexivity.
   - rewrite (eng_zrange_spec d key (x :: z') 0 (-1) G).
     + rewrite redis_slice_all. reflexivity.
-    + unfold kf_zrange_fwd. assert (0 < len (x :: z')) by (unfold len; cbn; lia). brk; try reflexivity; lia.
+    + intros _. unfold kf_zrange_fwd. assert (0 < len (x :: z')) by (unfold len; cbn; lia). brk; try reflexivity; lia.
 Qed.
 
 Theorem eng_zrank_spec d key z m : db_zok d -> zget d key = Some z ->
@@ -598,7 +657,7 @@ Proof.
   - rewrite z2sl_items. unfold redis_slice, redis_range.
     assert (0 < len (x :: z)) by (unfold len; cbn; lia). brk; try lia.
     replace (Z.to_nat (Z.min 0 (len (x :: z) - 1) - Z.max 0 0 + 1)) with 1%nat by lia. reflexivity.
-  - unfold kf_zrange_fwd. cbn [z2sl sl_length]. pose proof (len_nonneg (x :: z)). brk; try reflexivity; lia.
+  - intros _. unfold kf_zrange_fwd. cbn [z2sl sl_length]. pose proof (len_nonneg (x :: z)). brk; try reflexivity; lia.
 Qed.
 
 Theorem zpopmin_loop_spec key : forall fuel d acc z, db_zok d -> zget d key = Some z ->
@@ -673,12 +732,12 @@ Definition z3 : zset := [(bs "a", one_bits); (bs "b", two_bits); (bs "c", three_
 (** F-04b: ZRANGE z 0 -100 on three members returns the first member (Redis: empty) *)
 Lemma zrange_neg_stop_witness :
   kf_zrange_fwd 3 0 (-100) = true /\
-  zrange_of (z2sl z3) 0 (-100) false = [(bs "a", one_bits)] /\ redis_slice z3 0 (-100) = [].
+  zrange_of_v1 (z2sl z3) 0 (-100) false = [(bs "a", one_bits)] /\ redis_slice z3 0 (-100) = [].
 Proof. repeat split; vm_compute; reflexivity. Qed.
 (** F-04b: ZREVRANGE z 5 10 on three members returns one member (Redis: empty) *)
 Lemma zrevrange_beyond_witness :
   kf_zrange_rev 3 5 10 = true /\
-  zrange_of (z2sl z3) 5 10 true = [(bs "a", one_bits)] /\ redis_slice (rev z3) 5 10 = [].
+  zrange_of_v1 (z2sl z3) 5 10 true = [(bs "a", one_bits)] /\ redis_slice (rev z3) 5 10 = [].
 Proof. repeat split; vm_compute; reflexivity. Qed.
 
 (** F-04c: a multi-member ZADD whose second pair is bad answers an error but has added the first pair *)
